@@ -113,3 +113,6 @@ func (w *World) ParkedRes(kind string) []string {
 	sort.Strings(r)
 	return r
 }
+
+// RunIndex is the index of this run within the batch sequence (same seed, different index).
+func (w *World) RunIndex() int { return w.cfg.Run }
